@@ -3620,6 +3620,75 @@ def _unsplit_pairs(mod: Module, bmod: Module, pairs: T.Dict[str, T.List[T.Tuple[
     return out, nsites
 
 
+def _raise_guards(fn: U.FuncNode) -> T.List[T.List[ast.AST]]:
+    """For every `raise` of the function (nested scopes excluded): the tests of the `if` statements it sits under."""
+    out: T.List[T.List[ast.AST]] = []
+
+    def visit(stmts: T.Sequence[ast.stmt], stack: T.List[ast.AST]) -> None:
+        for st in stmts:
+            if isinstance(st, ast.Raise):
+                out.append(list(stack))
+            elif isinstance(st, ast.If):
+                visit(st.body, stack + [st.test])
+                visit(st.orelse, stack + [st.test])
+            elif isinstance(st, (ast.FunctionDef, ast.AsyncFunctionDef, ast.ClassDef)):
+                continue
+            else:
+                for name in ('body', 'orelse', 'finalbody'):
+                    visit(getattr(st, name, []) or [], stack)
+                for h in getattr(st, 'handlers', []) or []:
+                    visit(h.body, stack)
+    visit(fn.body, [])
+    return out
+
+
+def _combination_rejected(mod: Module, bmod: Module, u: Unsplit) -> T.Optional[str]:
+    """The whole-list argument of an unsplit record may still be harmless when the configuration is refused before the records are built: a
+    `raise` under tests that mention the list together with a mode flag of the building function (a parameter it tests by truth value, such as
+    the switch that selects the per-group split), in the function itself or in a same-class caller.  Returns a description, or None."""
+    fn = mod.func(u.func)
+    fields = _annotated_fields(bmod.cls(u.cls))
+    bound: T.Dict[str, ast.AST] = {fields[i]: a for i, a in enumerate(u.call.args) if i < len(fields)}
+    bound.update({k.arg: k.value for k in u.call.keywords if k.arg})
+    whole = _loaded_names(bound[u.whole])
+    params = [a.arg for a in fn.args.posonlyargs + fn.args.args + fn.args.kwonlyargs]
+    flags: T.Set[str] = set()
+    for n in walk_no_nested(fn):
+        if isinstance(n, (ast.If, ast.While, ast.IfExp)):
+            for leaf in _cond_leaves(n.test):
+                if isinstance(leaf, ast.Name) and leaf.id in params and leaf.id not in whole:
+                    flags.add(leaf.id)
+    if not flags:
+        return None
+    for chain in _raise_guards(fn):
+        names = {x for t in chain for x in _loaded_names(t)}
+        if names & whole and names & flags:
+            return f'{u.func} raises under `{" / ".join(short(t, 40) for t in chain)}`'
+    wparams = [p_ for p_ in params if p_ in whole]
+    cls_q, _, short_name = u.func.rpartition('.')
+    for q, caller in mod.funcs().items():
+        if q == u.func or (cls_q and not q.startswith(cls_q + '.')):
+            continue
+        for c in calls_in(caller):
+            if not (isinstance(c.func, ast.Attribute) and c.func.attr == short_name and isinstance(c.func.value, ast.Name) and c.func.value.id in ('self', 'cls')):
+                continue
+            args = U.bind_args(c, fn)
+            alias = U.single_def_aliases(caller)
+            lists = {x for p_ in wparams if p_ in args for x in _loaded_names(args[p_])}
+            flag_texts: T.Set[str] = set()
+            for f_ in flags:
+                if f_ in args:
+                    flag_texts.add(norm(args[f_]))
+                    if isinstance(args[f_], ast.Name) and args[f_].id in alias:       # type: ignore[attr-defined]
+                        flag_texts.add(norm(alias[args[f_].id]))       # type: ignore[attr-defined]
+            for chain in _raise_guards(caller):
+                names = {x for t in chain for x in _loaded_names(t)}
+                texts = {norm(x) for t in chain for x in ast.walk(t) if isinstance(x, ast.expr)}
+                if names & lists and texts & flag_texts:
+                    return f'{q} raises under `{" / ".join(short(t, 40) for t in chain)}` before calling {short_name}'
+    return None
+
+
 def r8(ctx: RuleCtx) -> None:
     exc = U.synthetic_module('example/backends_man.py', R8C_EXAMPLE)
     exs = {s_.func: bool(s_.missing) for s_ in _name_strips(exc, _record_classes(exc))}
@@ -3691,6 +3760,8 @@ def r8(ctx: RuleCtx) -> None:
         us, k_ = _unsplit_pairs(m2, bmod, pairs)
         npair += k_
         unsplit += [(m2, u) for u in us]
+    refused = [(u, why) for m2, u in unsplit for why in [_combination_rejected(m2, bmod, u)] if why]
+    unsplit = [(m2, u) for m2, u in unsplit if not any(u is r_ for r_, _ in refused)]
     for m2, u in unsplit:
         ctx.violation(m2, u.func, f'{u.cls}.{u.whole} handed over whole while {u.cls}.{u.split} is split per iteration',
                       f'the generator pairs {u.cls}.{u.split} with {u.cls}.{u.whole} position by position (zip), but the loop over `{short(u.loop.iter, 50)}` builds one {u.cls} per iteration '
@@ -3699,6 +3770,9 @@ def r8(ctx: RuleCtx) -> None:
                       f'instead of a/R1, b/R2, R3)', u.call)
     if npair == 0:
         raise Undecided(f'no {"/".join(pairs)} record is constructed inside a loop statement: where per-directory records are built could not be read')
+    if refused:
+        u, why = refused[0]
+        raise Undecided(f'{u.func}: {u.cls}.{u.whole} is handed over whole while {u.cls}.{u.split} is split per iteration, but {why}: whether the list can reach a split into several records could not be decided')
     if not unsplit:
         ctx.ok(f'{npair} lockstep field pairs ({"; ".join(f"{c}.{f}/{g}" for c, ps in pairs.items() for f, g in ps)}) at record constructors inside loops: both fields per-iteration, both whole, or one derived by the class')
 
